@@ -444,10 +444,15 @@ def stringify_operand(node: Node, operator: str) -> str:
     """
 
     if operator == ".":
+        if isinstance(node, IntExpr):
+            # `1.real` is a syntax error
+            return f"({stringify(node)})"
+
         precedence = _ATOM_PRECEDENCE
 
     elif operator == "{}":
-        precedence = 2
+        # A `:` ends the expression there, so a lambda has to be inside parentheses
+        precedence = 3
 
     elif operator == "not":
         precedence = 5
